@@ -758,6 +758,46 @@ def State.complete (s : State) : Bool :=
   s.kernel.leaves == s.kernel.total && s.output.leaves == s.output.total &&
   s.rproof.leaves == s.rproof.total && s.bitmapDone
 
+/-! ### the bitmap MMR the receiving side expects, and the one the serving side builds
+
+`Desegmenter::calc_bitmap_mmr_sizes`: `bitmap_mmr_leaf_count = (n_leaves(output_mmr_size) + 1023) / 1024`
+chunks of 1024 bits, `bitmap_mmr_size = insertion_to_pmmr_index(leaf_count)`.
+`BitmapAccumulator::init(idx, size)` = `apply_from(idx, 0, size)`: the peekable loop over the set
+leaf indices `< size` that appends a chunk every time an index beyond the current chunk is peeked
+and a last one **only if it has a bit set** (`if chunk.any()`). -/
+
+/-- `BitmapAccumulator::NBITS` -/
+def chunkBits : Nat := 1024
+
+/-- `bitmap_mmr_leaf_count` for an archive header with `outLeaves` output leaves -/
+def expectedChunks (outLeaves : Nat) : Nat := (outLeaves + 1023) / 1024
+
+/-- `bitmap_mmr_size` (`expected_bitmap_mmr_size()`) -/
+def expectedBitmapSize (outLeaves : Nat) : Nat := sizeOf (expectedChunks outLeaves)
+
+/-- the desegmenter created for an archive header with `outs` output leaves and `kers` kernels -/
+def State.ofHeader (hb ho hr hk outs kers : Nat) : State :=
+  State.new hb ho hr hk (expectedChunks outs) outs kers
+
+/-- the loop of `apply_from` from chunk 0: `ci` = `chunk_idx`, `any` = `chunk.any()`, `n` = chunks
+appended so far; the list is what is left of the (already `< size`-filtered) peekable iterator -/
+def accLoop : Nat → Nat → Bool → Nat → List Nat → Nat
+  | 0, _, _, n, _ => n
+  | _, _, any, n, [] => if any then n + 1 else n
+  | f + 1, ci, any, n, x :: xs =>
+    if x < ci * 1024 then accLoop f ci any n xs            -- skip (never with ascending input)
+    else if x < (ci + 1) * 1024 then accLoop f ci true n xs -- `chunk.set(idx % NBITS, true)`
+    else accLoop f (ci + 1) false (n + 1) (x :: xs)         -- `append_chunk`, next chunk
+
+def lmax : List Nat → Nat
+  | [] => 0
+  | x :: xs => max x (lmax xs)
+
+/-- number of chunks (leaves of the bitmap MMR) after `BitmapAccumulator::init(idxs, size)` -/
+def accChunkCount (idxs : List Nat) (size : Nat) : Nat :=
+  let l := idxs.filter (· < size)
+  accLoop (l.length + lmax l / 1024 + 2) 0 false 0 l
+
 end Dsg
 
 end GV.Seg
